@@ -44,6 +44,7 @@ type goProg struct {
 	parent    *goProg
 	callSite  *ssa.Call
 	paramRoot map[string]string
+	paramBase map[string]string // pointer parameters of an inlined callee that are the caller's own base pointers
 	depth     int
 	start     *AbsState // state at the call, parameters bound
 	rets      []*AbsState
@@ -1552,6 +1553,18 @@ func (g *goProg) inlineCall(a *AbsState, x *ssa.Call, f *ssa.Function, check boo
 			if _, _, isI := isIntType(prm.Type()); isI {
 				st.vals[pk] = g.val(st, arg)
 			}
+			if _, isPtr := prm.Type().Underlying().(*types.Pointer); isPtr {
+				if ap, isP := arg.(*ssa.Parameter); isP {
+					bk := g.ctx + "p:" + ap.Name()
+					if pb, ok := g.paramBase[ap.Name()]; ok {
+						bk = pb
+					}
+					if sub.paramBase == nil {
+						sub.paramBase = map[string]string{}
+					}
+					sub.paramBase[prm.Name()] = bk
+				}
+			}
 		}
 	}
 	sub.start = st
@@ -1681,6 +1694,9 @@ func (g *goProg) fieldCell(addr ssa.Value) string {
 	switch b := base.(type) {
 	case *ssa.Parameter:
 		bk = g.ctx + "p:" + b.Name()
+		if pb, ok := g.paramBase[b.Name()]; ok {
+			bk = pb // an inlined callee working on the caller's object
+		}
 	case *ssa.UnOp:
 		if al, isAl := b.X.(*ssa.Alloc); isAl && b.Op == token.MUL {
 			if sts := storesTo(al); len(sts) == 1 {
